@@ -37,7 +37,15 @@ func To(fs http.FileSystem, r *http.Request, to string, replacer httpserver.Repl
 		tparts := strings.SplitN(t, "?", 2)
 
 		if len(without) > 0 {
-			t = path.Clean(strings.TrimPrefix(tparts[0], without[0]))
+			t = strings.TrimPrefix(tparts[0], without[0])
+			// what is left is still a URL path and has to stay rooted: a
+			// relative path ("/presecret" without "/pre" = "secret") would
+			// slip past every path matcher further down the chain
+			// (basicauth, internal) and still be opened by the file server
+			if !strings.HasPrefix(t, "/") {
+				t = "/" + t
+			}
+			t = path.Clean(t)
 		} else {
 			t = path.Clean(tparts[0])
 		}
